@@ -76,6 +76,11 @@ def step(ctx, p):
             ctx.require(ok, "removing a simplex did not remove exactly it and the simplices containing it")
     if op in ("remove_simplex_id", "dep_remove_edge") and outcome != "returned":
         ctx.require(nets.same(pre, {e: set(v) for e, v in S._edge.items()}), "a rejected removal changed the complex")
+    if op in ("remove_simplex_ids_from", "dep_remove_edges_from"):
+        ids = args["ebunch"]
+        missing = [i for i in ids if i not in pre]
+        if missing:
+            ctx.require(outcome == "raised" and isinstance(exc, (xgi.exception.XGIError, xgi.exception.IDNotFound)), "bulk removal of an id that is not a simplex was not refused with the library's error")
     if op in ("add_simplex", "dep_add_edge") and outcome == "returned":
         mem = set(args["members"])
         refused = args.get("idx") is not None and args["idx"] in pre  # documented: warn and skip
